@@ -23,7 +23,7 @@ CHECKS = {
         'several switch vectors) is compiled alone by the real javac 17 (-nowarn) and then again in batches of 2, 8 and 32 at '
         'different positions, with passing and with failing neighbours; every per-file verdict in a batch must equal the '
         'verdict alone. The Java adapter is run on the real command-line text of every failing batch and must blame exactly '
-        'the files the structured diagnostics blame (C14 binding).',
+        'the files the structured diagnostics blame (C14 binding). Additionally every program of a hand-built program family (mc/progfam.py: 1 530 skeletons x language built through the real IR constructors -- generic calls fixed only by the expected type, constructors whose parameter occurs in no argument, constructor calls in receiver position, nested generic arguments, wider declared types, conditionals) is translated before and after erasure and compiled by javac (Java; programs whose unmutated translation javac rejects are counted and not judged).',
    note=CTE_NOTE + ' OpenJDK 17 javac is the judge; batch neighbours come from the same exploration unit.',
    technique='stateless choice-tree exploration with the real compiler as oracle (alone vs every batch position)'),
  'C03': dict(engine='CTE+javac', category='model_checking', design_ref='5 C03',
@@ -31,7 +31,7 @@ CHECKS = {
         'contain only removed var/return types and can_infer_type_args set; the reference checker in INFERENCE mode (omitted '
         'types replaced by synthesised ones and used at later uses, expected types flowing down) finds no definite error; '
         'javac accepts the Java translation; and every OTHER subset of omittable annotations that is_combination_feasible '
-        'accepts (functions with <=4, thorough <=7, omittable nodes) is applied, judged the same way and undone.',
+        'accepts (functions with <=4, thorough <=7, omittable nodes) is applied, judged the same way and undone. Additionally every program of a hand-built program family (mc/progfam.py: 1 530 skeletons x language built through the real IR constructors -- generic calls fixed only by the expected type, constructors whose parameter occurs in no argument, constructor calls in receiver position, nested generic arguments, wider declared types, conditionals) goes through the real erasure (1 and 2 times) and the powerset of feasible subsets, judged the same way.',
    note=CTE_NOTE + ' Inference oracle reports only definite failures (Kotlin: type parameter occurring in no constructor '
         'parameter and no expected type; synthesised type not below the recorded one); Java additionally by javac.',
    technique='stateless choice-tree exploration + exhaustive powerset of feasible erasure subsets, judged by a reference checker and javac'),
@@ -40,7 +40,7 @@ CHECKS = {
         'of every base execution the COMPLETE choice tree of TypeOverwriting.transform(): every candidate method x node x type '
         'parameter x replacement class (pool-building draws with <=1 deviation), each leaf on a fresh copy. Judged: exactly one '
         'declared-type slot differs; old/new unrelated under R-SUB; message names old type, new type, node; translation '
-        'changes; reference checker reports a new error; javac rejects the Java text; no report => empty diff and identical text.',
+        'changes; reference checker reports a new error; javac rejects the Java text; no report => empty diff and identical text. Additionally every program of a hand-built program family (mc/progfam.py: 1 530 skeletons x language built through the real IR constructors -- generic calls fixed only by the expected type, constructors whose parameter occurs in no argument, constructor calls in receiver position, nested generic arguments, wider declared types, conditionals) (quick: one per initializer) gets the COMPLETE overwriting choice tree.',
    note=CTE_NOTE + ' javac is the definite judge for Java; for the other languages a mutation the reference checker does not '
         'reject is counted, not reported, unless the text is unchanged. Inner trees are capped (400 quick / 6000 thorough leaves).',
    technique='exhaustive choice-tree DFS of the real mutation on explored programs, judged by structural diff, reference relation and javac'),
@@ -68,11 +68,11 @@ CHECKS = {
         'new / substitute_type / to_variance_free / to_type_variable_free / get_supertypes / is_subtype / get_type / '
         'find_subtypes on SHARED type objects: after every step all earlier objects and results keep their by-value '
         'snapshot. (c) receiver and arguments of every new()/substitute_type call of explored pipeline executions are '
-        'pickled before and after.',
+        'pickled before and after. The constructor object carried by every transitive supertype must be the class as the current table declares it (names and variances), which exposes state shared between instantiations of same-named classes of consecutive tables.',
    note='Trusted: reference substitution on terms, reflective snapshots. The aliasing alphabet is one fixed pool of 15 shared objects.',
    technique='explicit-state search over operation histories on shared objects + small-scope enumeration against a reference substitution'),
  'C08': dict(engine='SSE+inner-DFS', category='model_checking', design_ref='5 C08',
-   text='For every input of a small-scope universe (9 generic declarations incl. dependent/parameterized/variant bounds x '
+   text='For every input of a small-scope universe (13 generic declarations incl. dependent/parameterized/variant bounds x '
         '4-5 pools incl. abstract classes, bare constructors, primitives x 6-9 pre-assignments x 5 variance maps x 4 switch '
         'vectors, both helpers) the COMPLETE choice tree of the helper is walked: every answer at every random draw. Each '
         'leaf is judged for arity, bounds (R-SUB), usable arguments, kept pre-assignments and projection permissions.',
@@ -100,7 +100,7 @@ CHECKS = {
         'long-lived translator objects (3 programs x 4 languages, depth 3, state merging on translator attributes; '
         'factorised per translator with an independence check on every transition) compares every text with a '
         'fresh-translator reference and every program snapshot with its pre-translation snapshot. Histories are exactly '
-        'what a sample test cannot reach.',
+        'what a sample test cannot reach. Additionally every program of a hand-built program family (mc/progfam.py: 1 530 skeletons x language built through the real IR constructors -- generic calls fixed only by the expected type, constructors whose parameter occurs in no argument, constructor calls in receiver position, nested generic arguments, wider declared types, conditionals) (quick: one per initializer) is explored with every alternative of the overwriting mutation.',
    note=CTE_NOTE + ' Translator state = instance attributes + non-callable class attributes.',
    technique='stateless choice-tree exploration of the real pipeline + explicit-state BFS over translation histories against a fresh-translator reference'),
  'C12': dict(engine='CTE', category='model_checking', design_ref='5 C12',
@@ -108,21 +108,21 @@ CHECKS = {
         'language by a fresh translator; the text is tokenized and scanned for class headers, val/var/def declarations with '
         'or without a type, fun/def declarations with or without a result type, constructor calls with/without type '
         'arguments, string literals and bracket balance, and compared per name (multisets) with an inventory computed from '
-        'the IR by a reflective walker. Couples C03/C04 to the text: an erased annotation must be absent, a carried one present.',
+        'the IR by a reflective walker. Couples C03/C04 to the text: an erased annotation must be absent, a carried one present. Additionally every program of a hand-built program family (mc/progfam.py: 1 530 skeletons x language built through the real IR constructors -- generic calls fixed only by the expected type, constructors whose parameter occurs in no argument, constructor calls in receiver position, nested generic arguments, wider declared types, conditionals) (quick: one per initializer) is explored with every alternative of the overwriting mutation; Groovy local functions are compared as closure variables (def iff no result type).',
    note=CTE_NOTE + ' Scanners cover: balance, classes and strings (all languages); variable/result typing (Kotlin, Scala, '
         'Groovy def, Java var); constructor type arguments (all). Method/parameter/modifier inventories are not scanned.',
    technique='stateless choice-tree exploration with per-language text scanners compared against an independent IR inventory'),
  'C13': dict(engine='CTE', category='model_checking', design_ref='5 C13',
    text='At every save point of every explored execution the live program goes through the real dump/load (and '
         '--replay path); snapshots, translations in 4 languages, a second dump, and the mutations replayed '
-        'answer-by-answer from the recorded trace must all agree with the original.',
+        'answer-by-answer from the recorded trace must all agree with the original. Every saved .bin is also reloaded in a NEW interpreter with a different string-hash seed (PYTHONHASHSEED 1 vs 0: what --replay is), translated to the four languages, dumped and reloaded again; and at every save point the history load ; mutate in place ; load again must return the saved program.',
    note=CTE_NOTE + ' The per-execution node-hash counter travels with the pickle (identity-hash order is neutralised).',
    technique='stateless choice-tree exploration with trace replay of the mutations on the reloaded program'),
  'C14': dict(engine='OUT', category='exploration', design_ref='5 C14',
    text='The real analyze_compiler_output of all four adapters is run on every output of a per-compiler output grammar '
         'within the bounds (<=3 files, <=2 errors and <=1 warning per file, every distinct order of the diagnostics, '
         'message variants, notes/summary/final-newline/filter/crash options, tempfile and user-TMPDIR path alphabets); '
-        'ground truth by construction. Orders and mixes are what a handful of sample outputs cannot cover.',
+        'ground truth by construction. Orders and mixes are what a handful of sample outputs cannot cover. Four javac crash-trace shapes and two kotlinc shapes are appended to every batch output.',
    note='kotlinc/groovyc/scalac are not installed: their grammars follow the documented formats (assumption). '
         'Filter patterns cover a whole diagnostic.',
    technique='bounded exhaustive enumeration of a compiler-output grammar (all orders/interleavings) against ground truth by construction'),
@@ -150,7 +150,7 @@ CHECKS = {
  'C18': dict(engine='CTE', category='model_checking', design_ref='5 C18',
    text='Every stage of every explored execution must finish without exception, RecursionError (driver-equivalent '
         'head-room) or exceeding the 20 000 choice-point horizon; AST nesting and erasure-search work are bounded by '
-        'counters. Base schedules are fair round-robins so retry loops are visible and terminate.',
+        'counters. Base schedules are fair round-robins so retry loops are visible and terminate. Erasure search bound: the mutation\'s own max_combinations option is set to 3/5 so that the budget is reached (84 functions in the quick tier) and at most max_combinations+1 combinations may be examined. SESSION part: the real driver (_run, gen_program, gen_program_mul, --dry-run) generates 360 (thorough 1 200) programs in one batch and 360 as one pool worker, with the real word() over a pool scaled to 2 500 words (turned over 3-4 times): no program may fail internally, nothing may escape, counters must add up.',
    note=CTE_NOTE + ' The 600 s visitor timer is virtual (never fires); wall time is not an observable.',
    technique='stateless choice-tree exploration (deviation-bounded, fair base schedules) with work counters'),
  'C19': dict(engine='exhaustive-graphs', category='exploration', design_ref='5 C19',
